@@ -21,7 +21,8 @@ META = {
             "recorded constraint), is reduced with to_qubo/to_quso/to_pubo(deg)/to_puso(deg), deg in {None,2,3}, penalties {default, |v|, 1+|v|, large constant, too-small "
             "constant} and pairs hints {none, every single pair, unknown label}. On the full table of D: degree bound, label discipline (mapping images < n <= ancillas), "
             "exact extension for every x under any penalty, D >= M everywhere for admissible penalties, equal minima, every arg-min converting (real convert_solution, "
-            "dict/list/tuple) to an arg-min of M.",
+            "dict/list/tuple) to an arg-min of M; and for n + a <= 5 convert_solution on every one of the 2^(n+a) assignments of D, with the spin argument left at its "
+            "default whenever the assignment itself shows a 0 / -1, must return the first n values in the model's own domain.",
     "note": "Bounded: n<=4, <=9 ancillas, coefficient alphabet; models in refreshed state (C14 covers stale bookkeeping). For the spin route the admissible constant is "
             "sum|coef|*2^deg because the reduced term is a term of the boolean form.",
 }
